@@ -172,6 +172,8 @@ class World:
         self.inflight = []        # per O->H message: ("refs", [k..], disc) | ("ack",)
         self.inflight_ho = []     # per H->O message: ("decref",) | ("home", pid, k, iscall)
         self.lost = False
+        self.armed = False
+        self.handler_results = []
         # clid -> "d16" | "other": a decref answer deleted the import-table entry of a tracker that is in use.
         #   "d16"   = the entry belonged to a DIFFERENT (newer) tracker than the answered one, whose own count was 0
         #             (the listed finding: deletion by clid)
@@ -253,9 +255,37 @@ class World:
         self.pending_reflost = 0
         return [("HandleRefLost",)] * n
 
-    def a_send(self, ks, disc):
+    def turn_dead(self):
+        """after connection loss: run the eventual queue; whatever a dead Broker still writes goes nowhere"""
+        E.turn()
+        self.tO.cur = []; self.tH.cur = []
+        self.tO.q = []; self.tH.q = []
+        self.inflight = []; self.inflight_ho = []
+
+    def expect_dead(self, d, what):
+        """a callRemote through a proxy of the lost connection must fail with DeadReferenceError"""
+        from foolscap.ipb import DeadReferenceError
+        res = []
+        d.addBoth(res.append)
+        self.turn_dead()
+        ok = len(res) == 1 and hasattr(res[0], "check") and res[0].check(DeadReferenceError)
+        if not ok:
+            self.problems.append(("oracle/stale-call-not-refused", "%s after connection loss returned %r instead of failing with "
+                                  "DeadReferenceError" % (what, [getattr(r, "value", r) for r in res])))
+        del res[:]
+
+    def a_send(self, ks, disc, mode="only"):
         if self.lost:
-            return [], None
+            # a send at the dead connection, with pass-by-reference arguments: ignored (callRemoteOnly) / refused (callRemote);
+            # the model's step is the identity once lost
+            payload = [self.objs[k] for k in ks]
+            if mode == "call":
+                self.expect_dead(self.rrO.callRemote("m", "notint" if disc else 7, payload), "callRemote with %d references" % len(ks))
+            else:
+                self.rrO.callRemoteOnly("m", "notint" if disc else 7, payload)
+            del payload
+            self.turn_dead()
+            return [("Send", k, bool(disc)) for k in ks], None
         payload = [self.objs[k] for k in ks]
         self.rrO.callRemoteOnly("m", "notint" if disc else 7, payload)
         del payload
@@ -361,7 +391,7 @@ class World:
         gc.collect()
         ops = [("DropProxy", pid)]
         if self.lost:
-            self.turn()
+            self.turn_dead()
             return ops, None
         self.pending_reflost += 1
         if turn:
@@ -369,11 +399,24 @@ class World:
             ops += self._reflost_ops()
         return ops, None
 
-    def a_home(self, pid, iscall):
-        if self.lost or pid not in self.held:
+    def a_home(self, pid, iscall, mode="only"):
+        if pid not in self.held:
             return [], None
         if (iscall and self.obj_of[pid] == 0) or (not iscall and 0 not in self.held):
             return [], None
+        if self.lost:
+            p = self.held[pid]
+            if mode == "call":
+                d = p.callRemote("ping") if iscall else self.held[0].callRemote("home", p)
+                self.expect_dead(d, "callRemote through / with a stale proxy")
+                del d
+            elif iscall:
+                p.callRemoteOnly("ping")
+            else:
+                self.held[0].callRemoteOnly("home", p)
+            del p
+            self.turn_dead()
+            return [("SendHome", pid, bool(iscall))], None
         p = self.held[pid]
         if iscall:
             p.callRemoteOnly("ping")
@@ -385,6 +428,30 @@ class World:
         self.turn()
         return [("SendHome", pid, bool(iscall))] + self._reflost_ops(), None
 
+    def a_arm(self, ks, mode):
+        """register notifyOnDisconnect handlers on both ends that send by-reference arguments at the dying connection"""
+        if self.lost or self.armed:
+            return [], None
+        self.armed = True
+        world = self
+
+        def owner_side():
+            payload = [world.objs[k] for k in ks if k in world.objs]
+            world.rrO.callRemoteOnly("m", 7, payload)
+            if mode == "call":
+                world.rrO.callRemote("m", 7, payload).addErrback(lambda f: world.handler_results.append(f.type.__name__))
+
+        def holder_side():
+            for pid in sorted(world.held):
+                if pid != 0 and 0 in world.held:
+                    world.held[0].callRemoteOnly("home", world.held[pid])
+                    world.held[pid].callRemoteOnly("ping")
+                    if mode == "call":
+                        world.held[pid].callRemote("ping").addErrback(lambda f: world.handler_results.append(f.type.__name__))
+        self.O.notifyOnDisconnect(owner_side)
+        self.H.notifyOnDisconnect(holder_side)
+        return [], None
+
     def a_lost(self):
         if self.lost:
             return [], None
@@ -393,9 +460,11 @@ class World:
         self.H.connectionLost(failure.Failure(ConnectionLost()))
         self.tO.q = []; self.tH.q = []
         self.inflight = []; self.inflight_ho = []
-        self.turn()
-        self.tO.q = []; self.tH.q = []
+        self.turn_dead()
         self.pending_reflost = 0
+        bad = [r for r in self.handler_results if r != "DeadReferenceError"]
+        if bad:
+            self.problems.append(("oracle/stale-call-not-refused", "callRemote from a notifyOnDisconnect handler failed with %r" % (bad,)))
         return [("ConnLost",)], None
 
     # ---- abstract state, in the model's vocabulary
@@ -502,7 +571,7 @@ PROFILES = {
     "race2": ([1, 2], dict(send=5, oh=5, ho=4, drop=5, home=2, lost=0), 0.0, 0.3),
     "mixed": ([1, 2, 3, 4], dict(send=5, oh=5, ho=4, drop=4, home=3, lost=0), 0.0, 0.3),
     "discard": ([1, 2, 3], dict(send=5, oh=5, ho=4, drop=4, home=1, lost=0), 0.3, 0.2),
-    "loss": ([1, 2, 3], dict(send=5, oh=4, ho=3, drop=3, home=2, lost=1), 0.1, 0.3),
+    "loss": ([1, 2, 3], dict(send=5, oh=4, ho=3, drop=3, home=2, lost=1, arm=1), 0.1, 0.3),
 }
 
 
@@ -523,13 +592,17 @@ def gen_and_run(rng, profile, nsteps):
                 continue
             if k in ("drop", "home") and not [p for p in W.held if p != 0]:
                 continue
-            if k == "lost" and i < nsteps // 2:
+            if k == "lost" and (W.lost or i < nsteps // 3):
+                continue
+            if k == "arm" and (W.lost or W.armed):
                 continue
             kinds += [k] * wt
         k = rng.choice(kinds)
         if k == "send":
             n = rng.choice([1, 1, 1, 2, 3])
             a = ["send", [rng.choice(objs) for j in range(n)], rng.random() < pdisc]
+            if W.lost:
+                a.append(rng.choice(["only", "call"]))
         elif k == "drop":
             cands = sorted(p for p in W.held if p != 0)
             if rng.random() < 0.03:
@@ -537,12 +610,74 @@ def gen_and_run(rng, profile, nsteps):
             a = ["drop", rng.choice(cands), rng.random() >= pnoturn]
         elif k == "home":
             a = ["home", rng.choice(sorted(p for p in W.held if p != 0)), rng.random() < 0.5]
+            if W.lost:
+                a.append(rng.choice(["only", "call"]))
+        elif k == "arm":
+            a = ["arm", [rng.choice(objs) for j in range(rng.choice([1, 2]))], rng.choice(["only", "call"])]
         else:
             a = [k]
         rec.do(a)
-        if rec.aborted or (W.lost and rng.random() < 0.5):
+        if rec.aborted or (W.lost and rng.random() < 0.2):
             break
     return rec.finish()
+
+
+WINDOW_PREFIX = [["send", [1], False], ["oh"], ["drop", 1, True]]
+WINDOW_ALPHABET = ["send", "oh", "ho", "dropT", "dropF", "home"]
+
+
+def enumerate_window(depth, budget):
+    """EVERY interleaving (up to `depth` further actions) of: re-send, delivery of the next O->H message (my-reference
+    or answer), delivery of the next H->O message (decref), dropping the newest proxy with / without running the
+    eventual queue, sending the newest proxy home -- after `send; deliver; drop` has put a decref in flight.
+    Sequences containing a disabled action are skipped (they equal a shorter sequence).  -> results of all maximal
+    and intermediate sequences, breadth first, at most `budget` histories."""
+    out = []
+    frontier = [[]]
+    for d in range(depth):
+        nxt = []
+        for seq in frontier:
+            for letter in WINDOW_ALPHABET:
+                if len(out) >= budget:
+                    return out
+                W = World()
+                rec = Recorder(W)
+                ok = True
+                for a in WINDOW_PREFIX:
+                    rec.do(a)
+                for l in seq + [letter]:
+                    newest = max([p for p in W.held if p != 0], default=None)
+                    if l == "send":
+                        a = ["send", [1], False]
+                    elif l in ("oh", "ho"):
+                        a = [l]
+                    elif newest is None:
+                        ok = False
+                        break
+                    elif l == "home":
+                        a = ["home", newest, False]
+                    else:
+                        a = ["drop", newest, l == "dropT"]
+                    n = len(rec.groups)
+                    rec.do(a)
+                    if rec.aborted:
+                        break
+                    if len(rec.groups) == n or rec.groups[-1] == []:
+                        ok = False
+                        break
+                if not ok:
+                    try:
+                        W.close()
+                    except Exception:
+                        pass
+                    continue
+                r = rec.finish()
+                r["origin"] = "window"
+                out.append(r)
+                if not rec.aborted:
+                    nxt.append(seq + [letter])
+        frontier = nxt
+    return out
 
 
 def run_actions(actions):
@@ -595,6 +730,10 @@ class Recorder:
             self.flags.add("home")
         if a[0] == "lost":
             self.flags.add("lost")
+            if W.armed:
+                self.flags.add("disconnect-handler-sends")
+        if W.lost and a[0] in ("send", "home"):
+            self.flags.add("used-after-loss")
         self.actions.append(a)
         self.groups.append(ops)
         self.obs.append(ob)
@@ -647,7 +786,7 @@ SIG_PROPERTY = {
     "oracle/released-early": "C09", "oracle/clid-reused": "C09", "oracle/decref-exceeds-refcount": "C09",
     "oracle/refcount-not-positive": "C09", "oracle/export-tables-disagree": "C09", "oracle/leak": "C09",
     "oracle/leak-after-discarded-call": "C09", "oracle/table-survives-connection-loss": "C09",
-    "oracle/logged-error": "C09", "oracle/discarded-call-delivered": "C09",
+    "oracle/logged-error": "C09", "oracle/discarded-call-delivered": "C09", "oracle/stale-call-not-refused": "C09",
 }
 
 
@@ -813,6 +952,12 @@ def check_refs(ctx, pid, nontrivial_flag):
         r = gen_and_run(ctx.rng, prof, ctx.rng.choice([10, 20, 30, 45]))
         r["origin"] = prof
         results.append(r)
+    # 2b. exhaustive small scope: all interleavings around a decref in flight
+    t1 = time.time()
+    win = enumerate_window(ctx.n(6, 8), ctx.n(1000, 16000))
+    results += win
+    ctx.extra["window_histories"] = len(win)
+    ctx.extra["window_s"] = round(time.time() - t1, 1)
     for r in results:
         ctx.case(r["actions"], nontrivial=nontrivial_flag in r["flags"])
         ctx.hist("profile", r["origin"])
